@@ -121,3 +121,6 @@ func TestC11(t *testing.T) {
 		}
 	})
 }
+
+// FuzzC11 is the native coverage-guided supplement of the generated part (thorough tier only).
+func FuzzC11(f *testing.F) { fuzzProperty(f, TestC11) }
